@@ -17,7 +17,7 @@ from typing import Dict, List, Optional, Tuple
 from ..model import AnalysisError, ClassInfo, FunctionInfo
 from ..sellib import argmax_source, is_prob, onehot_source, strip_scalar
 from ..sym import NONE, State, Term, mentions, show, subterms
-from ..util import (SELF, arg, callee, guards_of, is_call, method_call, paths, resolve_stores,
+from ..util import (SELF, arg, callee, guards_of, inline_globals, is_call, method_call, paths, resolve_stores,
                     returning, short, where)
 
 EXPLANATION = ('Selection-source (selsrc) analysis: for each index expression used by summary / '
@@ -76,7 +76,7 @@ def r10a(ctx):
                 idx_src = idx[2][0][1]
             else:
                 idx_src = idx
-            am = argmax_source(idx_src)
+            am = argmax_source(inline_globals(repo, idx_src))     # small index helpers
             want = ('attr', q, 'alpha')
             ok = am is not None and am[0] == want and \
                 (am[1] == 0 if per_channel else am[1] in (None, 0))
